@@ -882,6 +882,8 @@ class Translator:
             return ("(map (fun %s => %s) %s)" % (xv.g, body, src), "vec")
         if name in ("clone", "to_owned", "to_vec") and not args: return self.ex(recv, env, B)
         r, tr = self.ex(recv, env, B)
+        if isinstance(tr, tuple) and tr[0] == "opt" and name == "unwrap" and not args:
+            v = self.fresh("u"); B.append(("bind", ("v", v), ("app", "unwrap_opt", [g_raw(r)]))); return (v, tr[1])
         key = (tr if not isinstance(tr, tuple) else tr[0], name, len(args))
         ent = self.tb.METHODS.get(key)
         if ent is None: self.bad("method `.%s/%d` on a receiver of type %s is not in the call table" % (name, len(args), tr))
@@ -967,7 +969,11 @@ class Translator:
             if v is None: self.bad("assignment to unknown variable `%s`" % p[1])
             if tval == "lit": tval = v.ty
             if v.ty != tval: self.bad("assignment of a %s to `%s` : %s" % (tval, v.name, v.ty))
-            B.append(("let", ("v", v.g), g_raw(val))); self.ctx.note(v); return
+            if B and B[-1][0] == "bind" and B[-1][1] == ("v", val) and re.match(r"^[a-z]+[0-9]+$", val):
+                B[-1] = ("bind", ("v", v.g), B[-1][2])            # x = f(..) : the fallible step binds x directly
+            else:
+                B.append(("let", ("v", v.g), g_raw(val)))
+            self.ctx.note(v); return
         if p[0] == "index":
             base = strip(p[1])
             owner = self.root_var(p, env)
@@ -977,7 +983,7 @@ class Translator:
                 if ti not in ("usize", "lit"): self.bad("index of type %s" % (ti,))
                 if tval != "elem": self.bad("a %s stored into a vector" % (tval,))
                 cur, _ = self.ex(base, env, [])
-                direct = self.tb.FIELDS.get(("vec", base[2]), ("", ""))[0] == "{0}" if base[0] == "field" else base[0] == "var"
+                direct = self.tb.FIELDS.get((owner.ty, base[2]), ("", ""))[0] == "{0}" if base[0] == "field" else base[0] == "var"
                 if direct and cur == owner.g:                  # x[i] = v  /  x.vec[i] = v : the owner is the list itself
                     B.append(("bind", ("v", owner.g), ("app", "upd", [g_raw(cur), g_raw(i), g_raw(val)])))
                     self.ctx.note(owner); return
